@@ -17,7 +17,7 @@ import scipy.sparse as sp
 from .. import pan
 from ..core import fail, seed_eps, digest
 
-RULE = ('one case = (object kind, first call); inside it all call histories up to the depth bound are executed on fresh real objects '
+RULE = ('one case = (object kind, first call) or (object kind, definition change); inside it all call histories up to the depth bound are executed on fresh real objects (quick: every call first, followed by every call of a state-sensitive probe subset; thorough: all calls at every depth) '
         '(breadth-first, histories reaching an already seen complete-state digest are not extended); non-trivial transition = a call '
         'made in a state that differs from the freshly constructed object')
 ASSUMPTIONS = ['eigenvalue results compared to 1e-8 relative (ARPACK start vector is random and not owned by the harness); eigenvectors are output-only fields excluded from the state digest',
@@ -440,11 +440,52 @@ def _bay_size(b):
     return n
 
 
+# definition changes between two evaluations on the SAME object: (label, setter(obj), cfg-level description of the same change for a fresh object)
+def _panel_redefs():
+    return {
+        'offset': lambda p: setattr(p, 'offset', 0.3e-3),
+        'angles': lambda p: setattr(p, 'stack', [t + 15. for t in p.stack]),
+        'a': lambda p: setattr(p, 'a', 2.6),
+        'flag': lambda p: setattr(p, 'w1rx', 0.),
+        'loads': lambda p: (setattr(p, 'Nxx', -3.0e3), setattr(p, 'Nxy', 0.9e3)),
+        'beta': lambda p: setattr(p, 'beta', 5.1),
+        'plyt': lambda p: setattr(p, 'plyt', 0.2e-3),
+        'laminaprop': lambda p: setattr(p, 'laminaprop', (71.0e9, 71.0e9, 0.33)),
+        'stack_longer': lambda p: setattr(p, 'stack', list(p.stack) + [45.]),
+        'force': lambda p: p.add_force(0.5, 0.5, 0., 0., 7., cte=True),
+        'orders': lambda p: (setattr(p, 'm', 5), setattr(p, 'n', 4)),
+    }
+
+
+def _conecyl_redefs():
+    return {
+        'stack': lambda c: (setattr(c, 'stack', [0., 90., 90., 0.]), setattr(c, 'plyts', []), setattr(c, 'laminaprops', [])),
+        'P': lambda c: setattr(c, 'P', 3.0e3),
+        'Fc': lambda c: setattr(c, 'Fc', -5.0e3),
+        'force': lambda c: c.add_force(0.2, 10., 0., 0., 9.),
+        'edge': lambda c: setattr(c, 'kphixBot', 4.0e3),
+        'n2': lambda c: setattr(c, 'n2', 3),
+    }
+
+
+REDEFS = {'Panel/plate': _panel_redefs, 'Panel/cpanel': _panel_redefs, 'ConeCyl/clpt_donnell_bc1/alpha0': _conecyl_redefs}
+REDEF_OPS = {'Panel/plate': ['k0', 'kG0', 'kM', 'kA', 'fext', 'static', 'kT', 'fint', 'uvw@2', 'stress'],
+             'Panel/cpanel': ['k0', 'kM', 'kT', 'static'],
+             'ConeCyl/clpt_donnell_bc1/alpha0': ['k0', 'fext', 'static', 'fint@1', 'kT@1']}
+SIG_STALE_CC = 'C20:ConeCyl-cached-linear-matrices-survive-a-definition-change'
+SIG_STALE_PLY = 'C20:Panel-derived-ply-lists-survive-a-change-of-plyt-laminaprop-stack'
+
+
 KINDS = {k.name: k for k in [PanelKind('plate'), PanelKind('cpanel'), AssemblyKind(), BayKind('b1d'), BayKind('b1d_base'),
                              BayKind('b2d'), BayKind('t2d'), ConeCylKind(0.0), ConeCylKind(20.0)]}
 
 
 # ----------------------------------------------------------------------------------------------- exploration
+# quick tier: every call is tried first, but only these state-sensitive calls are tried as the following call
+PROBE = {'k0', 'kM', 'kA', 'kT', 'fint', 'fext', 'static', 'uvw', 'stress', 'uvw_skin_grid', 'uvw_skin', 'uvw_flange', 'k0_conn', 'kG0c', 'cA',
+         'uvw_grid', 'eig:freq_dense'}
+
+
 def call(op, obj):
     try:
         import warnings
@@ -457,16 +498,56 @@ def call(op, obj):
         return e
 
 
+def check_redef(case):
+    """evaluate op, change the definition on the same object, evaluate op again: must equal a fresh object with the changed definition"""
+    kind = KINDS[case['kind']]
+    seed = case['seed']
+    ops = kind.ops(seed)
+    redefs = REDEFS[case['kind']]()
+    fails = []
+    execs = 0
+    for op in REDEF_OPS[case['kind']]:
+        a = kind.make(seed)
+        r0 = call(ops[op], a)
+        redefs[case['redef']](a)
+        if case['redef'] in ('orders', 'n2', 'stack_longer') and op not in ('k0', 'kG0', 'kM', 'kA', 'fext', 'static'):
+            continue        # ops with an amplitude vector of the old size are not comparable
+        r1 = call(ops[op], a)
+        b = kind.make(seed)
+        redefs[case['redef']](b)
+        rf = call(ops[op], b)
+        execs += 3
+        if isinstance(rf, Exception):
+            continue
+        d = same(r1, rf, eig=op.startswith('eig:'))
+        if d:
+            sig = None
+            unchanged = same(r1, r0) is None
+            if case['kind'].startswith('ConeCyl') and unchanged and op in ('k0', 'static', 'fint@1', 'kT@1', 'fext'):
+                sig = SIG_STALE_CC
+            if case['kind'].startswith('Panel') and case['redef'] in ('plyt', 'laminaprop', 'stack_longer'):
+                sig = SIG_STALE_PLY
+            fails.append(fail('%s: %s after changing "%s" on the same object differs from a freshly defined object with that definition%s'
+                              % (kind.name, op, case['redef'], ' (result unchanged: stale cached data)' if unchanged else ''), sig=sig,
+                              diff=d, error=repr(r1)[:200] if isinstance(r1, Exception) else None))
+    return dict(fails=fails, execs=execs, states=len(REDEF_OPS[case['kind']]), transitions=execs, nontrivial=1)
+
+
 def cases(tier, seed):
     depth = 2 if tier == 'quick' else 3
     out = []
+    for kname, mk in REDEFS.items():
+        for r in mk():
+            out.append(dict(kind=kname, redef=r, seed=seed))
     for name, kind in KINDS.items():
         for op in kind.ops(seed):
-            out.append(dict(kind=name, first=op, depth=depth, seed=seed))
+            out.append(dict(kind=name, first=op, depth=depth, probe_only=(tier == 'quick'), seed=seed))
     return out
 
 
 def check_case(case):
+    if 'redef' in case:
+        return check_redef(case)
     kind = KINDS[case['kind']]
     seed = case['seed']
     ops = kind.ops(seed)
@@ -491,6 +572,7 @@ def check_case(case):
             ref[nm] = call(ops[nm], o)
         else:
             ref[nm] = r
+    probe = [n for n in names if n.split('@')[0] in PROBE or n in PROBE]
     first = case['first']
     if isinstance(fresh[first], InputMutated):
         add('%s: %s modifies an input supplied by the caller' % (kind.name, first), sig='C20:%s:%s:mutates-input' % (kind.name, first))
@@ -537,7 +619,7 @@ def check_case(case):
             visited.add(dg)
             states += 1
             if depth < case['depth']:
-                for nm2 in names:
+                for nm2 in (probe if case.get('probe_only') else names):
                     nxt.append(hist + [nm2])
         frontier = nxt
     return dict(fails=fails, execs=execs, states=states, transitions=trans, nontrivial=nontrivial)
